@@ -52,7 +52,7 @@ FAULT_PROBES = {"first_command_fails": "first_command_fails", "middle_command_fa
 INTERP_VARIANTS = [{"flags": ["-O"], "runs": {"quick": 64, "thorough": 800}, "what": "python -O (assert statements stripped from the code under test)"}]
 PROBES = ["all_commands_succeed", "first_command_fails", "middle_command_fails", "last_command_fails", "death_by_signal", "return_file_missing",
           "all_return_files_missing", "return_file_is_input_file", "binary_input_file", "unnamed_command", "no_return_files_requested",
-          "runner_killed_mid_command", "driver_second_instance_used_after_first", "driver_job_level_override", "driver_subclass_instance", "driver_created_used_dropped", "driver_class_level_envars", "two_jobs_same_jid_overlap", "driver_found_through_PATH"]
+          "runner_killed_mid_command", "driver_second_instance_used_after_first", "driver_job_level_override", "driver_subclass_instance", "driver_created_used_dropped", "driver_class_level_envars", "two_jobs_same_jid_overlap", "driver_found_through_PATH", "driver_vectorised_job"]
 
 FAIL_KINDS = [("rc", 1), ("rc", 2), ("rc", 255), ("sig", -11)]
 
@@ -298,6 +298,13 @@ def _drivers(plan, res):
             return JobInput(str(x), commands=[(f"{self.executable} -n {self.nprocs} -m {self.memory} --flag {flag} {x}", "main")],
                             envars=dict(self.envars or {}), return_files=self.return_files)
 
+        @calc.post
+        def calc(self, out, x, flag="f0"):
+            return out
+
+        # the per-conformer ("vectorised") form of the same job: every JobInput it yields carries the same settings
+        calc_vec = Job.vectorize(calc)
+
     cls_env = spec.get("class_envars")
     if cls_env:
         # class-level defaults of the driver class: every instance starts from them, none may add to them
@@ -307,6 +314,9 @@ def _drivers(plan, res):
     class Sub(Drv):
         pass
 
+    class DefDrv(Drv):
+        default_executable = "defexe"     # used when an instance is created without an executable
+
     if jl:
         res.stats["probe:driver_job_level_override"] += 1
     inst = []
@@ -315,6 +325,9 @@ def _drivers(plan, res):
         if s["subclass"]:
             res.stats["probe:driver_subclass_instance"] += 1
         inst.append(cls(executable=s["executable"], nprocs=s["nprocs"], memory=s["memory"], envars=s["envars"], check_exe=False, find=False))
+    # one more instance, of a class with a default executable, created WITHOUT one
+    spec = dict(spec, instances=list(spec["instances"]) + [{"executable": "defexe", "nprocs": 5, "memory": None, "envars": {"DEF": "1"}, "subclass": False}])
+    inst.append(DefDrv(nprocs=5, envars={"DEF": "1"}, check_exe=False, find=False))
     k = len(inst)
     seqs = []
     for L in (1, 2, 3, 4):
@@ -354,6 +367,14 @@ def _drivers(plan, res):
                 res.violate("driver-settings", "C17|driver-settings|field=envars",
                             f"instance #{di} ({s}) used at position {pos} of sequence {seq}: envars {ji.envars!r}, expected {want_env!r}")
                 return
+            if pos % 2:
+                vin = list(d.calc_vec.prepare([f"item{di}", f"item{di}"], flag=flag))
+                res.stats["probe:driver_vectorised_job"] += 1
+                if len(vin) != 2 or any(v.commands[0][0] != want_cmd or dict(v.envars or {}) != want_env for v in vin):
+                    res.violate("driver-settings", "C17|driver-settings|vectorised-job",
+                                f"instance #{di} ({s}) at position {pos} of sequence {seq}: the vectorised job built "
+                                f"{[(v.commands[0][0], v.envars) for v in vin]!r}, expected 2 x ({want_cmd!r}, {want_env!r})")
+                    return
         if len(set(seq)) >= 2:
             res.stats["probe:driver_second_instance_used_after_first"] += 1
             res.keys.append("drv|" + digest((spec, seq)))
